@@ -41,16 +41,16 @@ var props = map[string]propSpec{
 		{Pkg: "registration", Fn: "VerifC01Token", Validate: 8, MustReach: []string{"issued", "not-issued"}, Panics: true},
 		{Pkg: "registration", Fn: "VerifC01Wrapped", Validate: 8, MustReach: []string{"issued", "not-issued"}, Panics: true},
 		{Pkg: "registration", Fn: "VerifC01Rewrapped", Validate: 8, MustReach: []string{"issued", "not-issued"}, Panics: true},
-	}, Assumptions: with(), Explanation: "FetchNodeCredentials executed from SSA against a marshal-based storage with symbolic records and a well-signed symbolic request"},
+	}, Assumptions: with(), Explanation: "FetchNodeCredentials and everything under it from SSA, one harness per clause of the statement in inductive-step form: (a) arbitrary stored record vs arbitrary well-signed node-led request, (b) the server's own token with either half replaced, consumed or not, key enrolled or not, any maximum lifetime and clock, (c) registration info sealed by the server's wrapper / a foreign wrapper / garbage / a forged blob, and info re-sealed by a registered or unrelated node, each with matching or mismatching inner nonce and key; refusals leave the node records byte-identical"},
 	"C02": {Harnesses: []harnessSpec{
 		{Pkg: "protocol", Fn: "VerifC02Auth", Validate: 16, MustReach: []string{"authenticated", "rejected"}, Panics: true, ShardBits: 4},
 		{Pkg: "protocol", Fn: "VerifC02Fetch", Validate: 8, MustReach: []string{"accept-returned"}, Panics: true},
-	}, Assumptions: with("TLS handshake contract model (DESIGN 3.5); native twin is a real crypto/tls client over net.Pipe"), Explanation: "real InterceptingListener.Accept under the handshake contract model with an adversarial peer"},
+	}, Assumptions: with("TLS handshake contract model (DESIGN 3.5); native twin: a real crypto/tls client over a loopback connection (vf.AdversaryConn)", "X.509 chain-building model of DESIGN 3.4 (depth 2, validity, EKU, DNS name)"), Explanation: "the real InterceptingListener.Accept (TLS callback, GenerateServerCertificates, ServerConfig and its callbacks, VerifyConnection) against a peer whose certificate issuer, key possession, request key, nonce signature key, node-ID hint, skip flag, common name and preferred root are all symbolic, with two records present or removed and both storage kinds; a fetch handshake with a foreign entry before, after or absent never yields a connection"},
 	"C03": {Harnesses: []harnessSpec{
 		{Pkg: "registration", Fn: "VerifC03Validate", Validate: 16, MustReach: []string{"accepted", "rejected"}, Panics: true, CrossSolver: "z3"},
 		{Pkg: "registration", Fn: "VerifC03EntryPoints", Validate: 16, MustReach: []string{"authorize-accepted", "authorize-rejected", "fetch-done"}, Panics: true},
 		{Pkg: "registration", Fn: "VerifC03NodeSide", Validate: 4, MustReach: []string{"own-request-accepted", "own-request-rejected"}},
-	}, Assumptions: with(), Explanation: "validateFetchRequestCommon with every bundle field, signature provenance, skew and clock symbolic"},
+	}, Assumptions: with(), Explanation: "validateFetchRequestCommon, AuthorizeNode and FetchNodeCredentials with every bundle field, the encoding sent (canonical or another encoding of the same message), the signature (any key over the sent / canonical / other bytes, or raw bytes of any length), both skews (any sign) and the clock symbolic; node-side request creation and its exact validity window"},
 	"C04": {Harnesses: []harnessSpec{
 		{Pkg: "protocol", Fn: "VerifC04OperatorFlow", Validate: 4, MustReach: []string{"end"}, ShardBits: 2},
 		{Pkg: "protocol", Fn: "VerifC04TokenFlow", Validate: 4, MustReach: []string{"end"}, ShardBits: 2},
@@ -72,7 +72,7 @@ var props = map[string]propSpec{
 		{Pkg: "registration", Fn: "VerifC06SingleUse", Validate: 8, MustReach: []string{"first-use-enrolled", "first-use-refused"}},
 		{Pkg: "registration", Fn: "VerifC06ExistingKey", Validate: 4, MustReach: []string{"enrolled", "refused"}},
 		{Pkg: "registration", Fn: "VerifC06Tamper", Validate: 8, MustReach: []string{"enrolled", "refused"}},
-	}, Assumptions: with(), Explanation: "activation token create/use/re-use from SSA"},
+	}, Assumptions: with(), Explanation: "real token creation, honest node side and FetchNodeCredentials: single use by the same or another node, expiry for any maximum lifetime and clock, no enrollment over an existing record (with and without storage wrapper), and five tamperings of a stored token record against a second token with arbitrary creation instants; the HMAC key is never persisted"},
 	"C07": {Harnesses: []harnessSpec{
 		{Pkg: "protocol", Fn: "VerifC07RogueServer", Validate: 8, MustReach: []string{"connected", "refused"}, ShardBits: 2},
 		{Pkg: "protocol", Fn: "VerifC07OwnServer", Validate: 8, MustReach: []string{"end"}},
@@ -81,7 +81,7 @@ var props = map[string]propSpec{
 		Explanation: "real ClientConfigs (nonce, signing, ALPN assembly, chain filtering) and its VerifyConnection / GetClientCertificate callbacks against rogue servers (stale certificate for another nonce, foreign root, self-signed, another node's certificate; with or without the leaf key) for each configuration and dial option set; and against the node's own server when only one of its two roots survives; the pending-authorization path (not-authorized error, nothing stored, success with the same key after authorization) with both sides of the handshake running the library's code"},
 	"C08": {Harnesses: []harnessSpec{
 		{Pkg: "rotation", Fn: "VerifC08Rotate", Validate: 16, MustReach: []string{"nothing", "promote", "remint", "startover"}, CrossSolver: "z3"},
-	}, Assumptions: with("clock assumption: one rotation call takes < 100 ms and ends before the promoted root expires"), Explanation: "one RotateRootCertificates call from arbitrary stored windows"},
+	}, Assumptions: with("clock assumption: one rotation call takes < 100 ms and ends before the promoted root expires"), Explanation: "one RotateRootCertificates call from absent or stored roots whose four validity instants are free integers (every ordering relative to now at once), any positive lifetime and skews, with or without reinitialisation: exact decision table, persisted = returned incl. labels, exact minted windows with the half-life shift, overlap, current valid"},
 	"C09": {Harnesses: []harnessSpec{
 		{Pkg: "rotation", Fn: "VerifC09Base", Validate: 1, MustReach: []string{"end"}, CrossSolver: "z3"},
 		{Pkg: "rotation", Fn: "VerifC09Step", Validate: 4, MustReach: []string{"returned", "promoted", "unchanged"}, CrossSolver: "z3"},
@@ -91,7 +91,7 @@ var props = map[string]propSpec{
 	"C10": {Harnesses: []harnessSpec{
 		{Pkg: "rotation", Fn: "VerifC10Rotate", Validate: 2, MustReach: []string{"rotated", "refused"}, Panics: true},
 		{Pkg: "rotation", Fn: "VerifC10Adversary", Validate: 16, MustReach: []string{"rotated", "refused"}, Panics: true, ShardBits: 4},
-	}, Assumptions: with(), Explanation: "RotateNodeCredentials after two honest enrollments"},
+	}, Assumptions: with(), Explanation: "RotateNodeCredentials from an arbitrary stored state (two records of the node in either order, optional previous key, another node) and an arbitrary request (payload key, identification by key or node ID, fresh or registered new key, inner nonce of any length, inner signature key, caller state option); plus an honest two-enrollment history with replay"},
 	"C11": {Harnesses: []harnessSpec{
 		{Pkg: ".", Fn: "VerifC11Arbitrary", Validate: 8, MustReach: []string{"returned"}, Panics: true},
 		{Pkg: ".", Fn: "VerifC11RoundTrip", Validate: 8, MustReach: []string{"decrypted", "refused"}, Panics: true},
@@ -130,7 +130,7 @@ var props = map[string]propSpec{
 	"C15": {Harnesses: []harnessSpec{
 		{Pkg: "protocol", Fn: "VerifC15WriteSetStubbed", Loop: 24, Validate: 8, MustReach: []string{"end"}},
 		{Pkg: "protocol", Fn: "VerifC15WriteSet", Loop: 24, Validate: 8, MustReach: []string{"end"}, ShardBits: 4},
-	}, Assumptions: with("reduced claim: write-set isolation only; interleavings and data races are not decided"), Explanation: "write-set isolation of one handshake over symbolic len/cap of the option slice"},
+	}, Assumptions: with("REDUCED CLAIM: write-set isolation (a sufficient condition for handshakes not influencing each other through memory); interleavings themselves and data races are not decided by this technique", "writes made by Storage implementations are the environment's and exempt", "a reallocating append may return spare capacity (vf.AppendSpare): the Go runtime rounds capacities up"), Explanation: "one complete TLS callback with the real fetch and certificate-generation functions (and a stubbed variant for larger slices) writes nothing into memory that existed before it started, for every length and spare capacity of the application's option slice and of the listener's copy, for token, node-led, authentication and base handshakes"},
 	"C16": {Harnesses: []harnessSpec{
 		{Pkg: "protocol", Fn: "VerifC16Protos", Validate: 8, MustReach: []string{"end"}},
 		{Pkg: "protocol", Fn: "VerifC16ConnHonest", Validate: 8, MustReach: []string{"end"}, ShardBits: 2},
